@@ -16,6 +16,11 @@
                              `writeFunction` returns (the broker's latency)                  → `writeDone`
     Close()                  `Add(2); close(chan)` … `Wait()` returns                        → `close` … `closeReturn`
 
+  The hand-over is a plain blocking channel send (go/ast: one send statement, no select, no
+  goroutine — `C19_handover_is_code`): `publish p` is enabled only while the channel has room, it
+  makes the event accepted and puts it at the back of the channel in ONE step; a producer facing
+  a full channel simply does not move.
+
   A schedule is a `List Step`; a step that is not enabled leaves the state
   unchanged (`run`), `runStrict` refuses it.  `sync.Cond` is modelled as in Go:
   Signal/Broadcast wake a goroutine only if it is ALREADY waiting, nothing is
